@@ -117,12 +117,15 @@ class GeneralInstanceGenerator(InstanceGenerator):
         self, num_jobs: int | None = None, num_machines: int | None = None
     ) -> JobShopInstance:
         if num_jobs is None:
-            num_jobs = random.randint(*self.num_jobs_range)
+            min_num_jobs, max_num_jobs = self.num_jobs_range
+            if not self.allow_less_jobs_than_machines:
+                min_num_jobs = max(min_num_jobs, self.num_machines_range[0])
+            num_jobs = random.randint(min_num_jobs, max_num_jobs)
 
         if num_machines is None:
             min_num_machines, max_num_machines = self.num_machines_range
             if not self.allow_less_jobs_than_machines:
-                min_num_machines = min(num_jobs, max_num_machines)
+                max_num_machines = min(num_jobs, max_num_machines)
             num_machines = random.randint(min_num_machines, max_num_machines)
         elif (
             not self.allow_less_jobs_than_machines and num_jobs < num_machines
